@@ -52,7 +52,7 @@ class World:
         space_contracts = []
         for k in model["space"]:
             if k == "CH":
-                self.chain = FutureChain(contracts=[cs[n] for n in model["chain"]])
+                self.chain = FutureChain(contracts=[cs[n] for n in model["chain"]], month=int(model.get("chain_offset") or 0))
                 space_contracts.append(self.chain)
             else:
                 space_contracts.append(cs[k])
